@@ -6,12 +6,13 @@ using namespace vt;
 static bool gThorough = false;
 
 static const double TARGETS[4] = {0.3, 0.5, 0.8, 0.99};
-static const double MARGINS[3] = {0.0, 0.5, 1.0};
+static const int NM = 5;
+static const double MARGINS[NM] = {0.0, 0.5, 1.0, 0.75, 0.3};  // the last two: margin x row height is fractional
 static const double CAPS[3] = {0.1, 0.5, 1.0};
 static const float FACTORS[4] = {1.0f, 1.25f, 2.0f, 3.5f};
 static const float CONG[4] = {0.5f, 1.0f, 1.1f, 2.0f};
 
-// aux: 0 expandCellsToDensity (aux2 = target + 4*margin + 12*cap)
+// aux: 0 expandCellsToDensity (aux2 = target + 4*margin + 4*NM*cap)
 //      1 expandCellsByFactor  (aux2 = factor tuple base 4 + 256*(maxDensity idx + 4*margin))
 //      2 computeCellExpansion (aux2 = region-set index)
 static std::vector<Spec> circuits() {
@@ -70,14 +71,14 @@ static void enumerateAll(const std::function<void(const Spec &)> &f) {
   size_t nRegionSets = regionSets().size();
   for (auto &c : cs) {
     for (int t = 0; t < 4; ++t)
-      for (int m = 0; m < 3; ++m)
-        for (int cap = 0; cap < 3; ++cap) { Spec s = c; s.aux = 0; s.aux2 = t + 4 * m + 12 * cap; f(s); }
+      for (int m = 0; m < NM; ++m)
+        for (int cap = 0; cap < 3; ++cap) { Spec s = c; s.aux = 0; s.aux2 = t + 4 * m + 4 * NM * cap; f(s); }
     int n = c.cells.size();
     int tuples = 1;
     for (int i = 0; i < n; ++i) tuples *= 4;
     for (int tu = 0; tu < tuples; ++tu)
       for (int md = 0; md < 4; ++md)
-        for (int m = 0; m < 3; ++m) { Spec s = c; s.aux = 1; s.aux2 = tu + 256 * (md + 4 * m); f(s); }
+        for (int m = 0; m < NM; ++m) { Spec s = c; s.aux = 1; s.aux2 = tu + 256 * (md + 4 * m); f(s); }
     for (size_t r = 0; r < nRegionSets; ++r) { Spec s = c; s.aux = 2; s.aux2 = (int)r; f(s); }
     // histories on one Circuit object: expansion, then a change of the fixed cells / rows, then another expansion
     for (int first = 0; first < 3; ++first)
@@ -135,7 +136,7 @@ static vf::Verdicts eval(const Spec &s, vf::Ctx &ctx) {
     return "";
   };
   if (s.aux == 0) {
-    double target = TARGETS[s.aux2 % 4], margin = MARGINS[(s.aux2 / 4) % 3], cap = CAPS[s.aux2 / 12];
+    double target = TARGETS[s.aux2 % 4], margin = MARGINS[(s.aux2 / 4) % NM], cap = CAPS[s.aux2 / (4 * NM)];
     double availReal; long long availTrunc; int nRuns;
     availableArea(s, c, margin, availReal, availTrunc, nRuns);
     long long area0 = movableArea(c);
@@ -293,7 +294,7 @@ int main(int argc, char **argv) {
   c.level = "exploration";
   c.rule =
       "16 circuits (2 row sets incl. split rows x 8 cell sets: mixed heights, zero-width / zero-height cells, fixed obstruction in a row, straddling obstruction, fixed "
-      "non-obstruction, dense, movable macro) x expandCellsToDensity over targets {0.3,0.5,0.8,0.99} x margins {0,0.5,1} x caps {0.1,0.5,1}; x expandCellsByFactor over every factor "
+      "non-obstruction, dense, movable macro) x expandCellsToDensity over targets {0.3,0.5,0.8,0.99} x margins {0,0.5,1,0.75,0.3} x caps {0.1,0.5,1}; x expandCellsByFactor over every factor "
       "vector in {1,1.25,2,3.5}^n x max densities {0.1,0.5,0.8,1} x margins; x computeCellExpansion over every set of <= 2 (some/all 3) overlapping regions from a 6-rectangle menu "
       "with congestion {0.5,1,1.1,2} and three (fixedPenalty, penaltyFactor) pairs; x histories on one Circuit object (an expansion or a computeRows query, then one of six changes of a fixed obstruction / the rows through the public setters, then one of four expansions) compared with a fresh object that only performs the last call; oracle: snapshot comparison (only widths of movable cells may change), no narrowing, "
       "area <= target x available (oracle's own rows-minus-all-obstructions-minus-margin area), target reached within one cell height when the cap is not hit, max-over-"
